@@ -897,6 +897,18 @@ def MAINT3_SCRIPT(K=0, horizon=4, ops=None):
     return s
 
 
+def MAINT4_SCRIPT(K=0, horizon=5, ops=None):
+    '''Two overlapping orders on two machines where the one started later finishes first (scripted), then a further order
+    with another tag for the machine whose long order is still running.'''
+    wo = {'l': [1, 3, 0], 's': [1, 1, 0], 't': [1, 0.5, 0]}
+    devs = [src('S', 1), proc('M1', ['S'], 1, wo=wo), proc('M2', ['S'], 1, wo=wo), sink('K', ['M1', 'M2']), maint(2)]
+    if ops is None:
+        ops = [('fail', 'M2', 0), ('restore', 'M2'), ('wo', 'M2', 't')]
+    s = spec(f'MAINT4SCRIPT[K{K}]', devs, horizon, ops, K)
+    s['script'] = [[0.5, 2, ['wo', 'M1', 'l']], [1, 2, ['wo', 'M2', 's']], [2.5, 2, ['wo', 'M1', 't']]]
+    return s
+
+
 def MAINT2_SCRIPT(K=0, horizon=8, ops=None):
     '''Two machines: M2 is under scripted maintenance with a part in process while operations hit M1.'''
     devs = [src('S', 1), proc('M1', ['S'], 1), buf('B', ['M1'], 2), proc('M2', ['B'], 2), sink('K', ['M2'])]
